@@ -77,11 +77,13 @@ class!(W4, "w4", u32, 0, true, [repr(C)]);
 class!(P4, "p4", u32, 0, false, [repr(C)]);
 class!(S16, "s16", u32, 12, true, [repr(C, align(8))]);
 class!(A32, "a32", u32, 28, true, [repr(C, align(32))]);
+class!(A16, "a16", u32, 12, true, [repr(C, align(16))]);
 class!(Big, "big", u32, 2044, true, [repr(C, align(8))]);
 with_drop!(B1);
 with_drop!(W4);
 with_drop!(S16);
 with_drop!(A32);
+with_drop!(A16);
 with_drop!(Big);
 
 macro_rules! layout_assert {
@@ -94,6 +96,7 @@ layout_assert!(W4, 4, 4, true);
 layout_assert!(P4, 4, 4, false);
 layout_assert!(S16, 16, 8, true);
 layout_assert!(A32, 32, 32, true);
+layout_assert!(A16, 16, 16, true);
 layout_assert!(Big, 2048, 8, true);
 // configuration the Lean model assumes: 64-bit usize, header = 3 words
 const _: () = assert!(size_of::<usize>() == 8 && align_of::<usize>() == 8);
